@@ -73,7 +73,7 @@ static void writer(int ci, int e) {
 static void reader(int ci, int e) {            // reads on end e what the writer on end 1-e sent
     Conn& c = W->conns[ci]; KernelSocketStream* s = c.s[e];
     int expect = (W->shut_at >= 0 && e == 1) ? std::min(W->shut_at, W->L) : W->L;
-    int n = 1; { int k = pmc_choose(4, PMC_PROG, 0, "reader buffer size"); n = k == 0 ? std::max(1, W->L + 1) : k == 1 ? 1 : k == 2 ? 2 : (int)W->cap; }
+    int n = 1; if (W->conns.size() <= 2) { int k = pmc_choose(4, PMC_PROG, 0, "reader buffer size"); n = k == 0 ? std::max(1, W->L + 1) : k == 1 ? 1 : k == 2 ? 2 : (int)W->cap; }
     bool timed = W->timeout && e == 1;          // (epoll_wait has 1 ms granularity: a 50 us timeout may take up to ~1 ms) only this reader has a stream timeout; every other waiter must be unaffected by it
     if (timed) s->timeout(TMO);
     int guard = 0; int timeouts = 0;
@@ -121,7 +121,7 @@ static void stuck(const char* why) {
     pmc_violation("deadlock", "all threads blocked (%s): %s", s.c_str(), why);
 }
 
-// config "cap<C>:<w|s|v><L>:<r|c|x>[:t][:d][:2][:h<k>][:et]"   :et = edge-triggered streams (ETKernelSocketStream over the thread-local ETPoller:
+// config "cap<C>:<w|s|v><L>:<r|c|x>[:t][:d][:2][:n<k>][:h<k>][:et]"   :et = edge-triggered streams (ETKernelSocketStream over the thread-local ETPoller:
 // a second epoll nested in the master engine, polled by an event loop thread every 1 ms, so the run never goes quiescent: a watchdog judges)
 void pmc_run(const char* config) {
     World w; W = &w;
@@ -131,13 +131,14 @@ void pmc_run(const char* config) {
     w.et = strstr(rest, ":et"); if (w.et) *strstr(rest, ":et") = 0;
     w.timeout = strstr(rest, ":t"); w.duplex = strstr(rest, ":d"); w.two = strstr(rest, ":2");
     if (const char* h = strstr(rest, ":h")) w.shut_at = atoi(h + 2);
+    int many = 0; if (const char* m = strstr(rest, ":n")) many = atoi(m + 2);      // :n<k> = k connections on one engine (more than one 16-event batch)
     pmc_window(0);
     simk::reset(cap);
     simk::on_stuck = stuck;
     sv::init();
     reset_master_event_engine_default();
     fd_events_init(new_epoll_master_engine());          // the REAL engine, on simulated epoll
-    int nconn = w.two ? 2 : 1; w.conns.resize(nconn);
+    int nconn = many ? many : w.two ? 2 : 1; w.conns.resize(nconn);
     if (w.et) et_poller_init();
     for (auto& c : w.conns) { socketpair(AF_UNIX, SOCK_STREAM, 0, c.fd); for (int e = 0; e < 2; e++) c.s[e] = w.et ? new ETKernelSocketStream(c.fd[e]) : new KernelSocketStream(c.fd[e]); }
     pmc_window(1);
@@ -180,6 +181,9 @@ static const PmcConfig CFG[] = {
     {"cap2:s4:c:d:et", 3, {0,0}, {0,0}, {1,2}, {0,0}, "edge-triggered, both directions of each descriptor awaited at once"},
     {"cap2:v6:x:2:et", 3, {0,0}, {0,0}, {1,2}, {0,0}, "edge-triggered, two connections in one poller"},
     {"cap2:w5:r:h3:et",3, {0,0}, {0,0}, {1,2}, {0,0}, "edge-triggered, peer shutdown (EOF edge)"},
+    {"cap2:w1:r:n17",  3, {0,0}, {0,0}, {1,2}, {0,0}, "17 connections become readable together: more than one 16-event batch of the engine"},
+    {"cap2:s2:c:d:n9", 3, {0,0}, {0,0}, {1,1}, {0,0}, "9 full-duplex connections: 18+ events at once"},
+    {"cap2:w1:r:n17:et",2,{0,0}, {0,0}, {1,1}, {0,0}, ""},
     {"cap2:w4:c:d:2",  2, {0,0}, {0,0}, {2,3}, {0,0}, ""},
     {"cap4:v9:x:d",    2, {0,0}, {0,0}, {2,3}, {0,0}, ""},
 };
